@@ -1100,7 +1100,7 @@ fn do_sync(ctx: &Ctx, op: &Op) -> Out {
         Op::LinkTo(l) => do_link_sync(ctx, l),
         Op::Abandon { spec, at } => do_abandon_sync(ctx, spec, *at),
         Op::TwoWriters { a, b, plan } => do_two_sync(ctx, a, b, *plan),
-        Op::DamageContent { .. } | Op::DamageBucket { .. } | Op::ForeignRecord { .. } | Op::Chdir { .. } | Op::PlantRecord { .. } | Op::TmpElsewhere => unreachable!(),
+        Op::DamageContent { .. } | Op::DamageBucket { .. } | Op::ForeignRecord { .. } | Op::Chdir { .. } | Op::PlantRecord { .. } | Op::TmpElsewhere | Op::RemoveTarget { .. } => unreachable!(),
     }
 }
 
@@ -1193,7 +1193,7 @@ async fn do_async(ctx: &Ctx<'_>, op: &Op) -> Out {
         Op::LinkTo(l) => do_link_async(ctx, l).await,
         Op::Abandon { spec, at } => do_abandon_async(ctx, spec, *at).await,
         Op::TwoWriters { a, b, plan } => do_two_async(ctx, a, b, *plan).await,
-        Op::DamageContent { .. } | Op::DamageBucket { .. } | Op::ForeignRecord { .. } | Op::Chdir { .. } | Op::PlantRecord { .. } | Op::TmpElsewhere => unreachable!(),
+        Op::DamageContent { .. } | Op::DamageBucket { .. } | Op::ForeignRecord { .. } | Op::Chdir { .. } | Op::PlantRecord { .. } | Op::TmpElsewhere | Op::RemoveTarget { .. } => unreachable!(),
     }
 }
 
@@ -1369,6 +1369,10 @@ pub fn do_harness_side(ctx: &Ctx, op: &Op) -> Out {
         Op::DamageBucket { key, dmg } => {
             let p = reffmt::bucket_path(&ctx.cache, ctx.key(*key));
             crate::damage::damage_bucket(&p, dmg);
+            Out::Done
+        }
+        Op::RemoveTarget { target } => {
+            let _ = std::fs::remove_file(ctx.target_path(*target));
             Out::Done
         }
         Op::TmpElsewhere => {
